@@ -261,8 +261,8 @@ Print Assumptions c17_converged_although_overtaken.
 (* ------------------------------------------------------------------------------------------------
    Findings: the full statement is false of the faithful model of the pinned code.
    ------------------------------------------------------------------------------------------------ *)
-Definition cfg_pinned : config := mkcfg (PMain ["cali"%string] true [] [3; 80] [80] false) 254 3 0 0 false false.
-Definition cfg_fixed : config := mkcfg (PMain ["cali"%string] true [] [3; 80] [80] false) 254 3 0 0 true true.
+Definition cfg_pinned : config := mkcfg (PMain ["cali"%string] true [] [3; 80] [80] false) 254 3 0 0 false false false.
+Definition cfg_fixed : config := mkcfg (PMain ["cali"%string] true [] [3; 80] [80] false) 254 3 0 0 true true true.
 
 (* A: interface flaps, both events reported, the per-interface route listing of the next Apply fails:
       Apply() = nil, the flushed route is not restored, nothing is queued. *)
